@@ -17,6 +17,9 @@ import (
 	"runtime"
 	"sort"
 	"strings"
+	"sync"
+	"sync/atomic"
+	"time"
 )
 
 // ---- deterministic PRNG (SplitMix64); every random choice of every generator comes from here
@@ -105,8 +108,30 @@ func b2s(b bool) string {
 }
 func itoa(i int) string { return fmt.Sprintf("%d", i) }
 
-// execLine runs one request against the real code, mapping panics to a reply.
-func execLine(line string) (reply string) {
+// opTimeout bounds one operation: a change that makes the library loop forever must not hang the check (the reply
+// "timeout" can never match the model).  The abandoned goroutine keeps spinning; at most maxTimeouts of them are tolerated.
+const opTimeout = 20 * time.Second
+const maxTimeouts = 3
+
+var timeouts int
+
+func execLine(line string) string {
+	if timeouts >= maxTimeouts {
+		return "timeout (skipped: too many earlier timeouts)"
+	}
+	done := make(chan string, 1)
+	go func() { done <- execLineInner(line) }()
+	select {
+	case r := <-done:
+		return r
+	case <-time.After(opTimeout):
+		timeouts++
+		return "timeout"
+	}
+}
+
+// execLineInner runs one request against the real code, mapping panics to a reply.
+func execLineInner(line string) (reply string) {
 	f := strings.Fields(line)
 	if len(f) < 2 {
 		return "bad-op"
@@ -138,6 +163,7 @@ func main() {
 		stats  = flag.String("stats", "", "file to write generator statistics to (json)")
 		replay = flag.String("replay", "", "execute request lines from this file instead of generating")
 		list   = flag.Bool("list", false, "list streams")
+		par    = flag.Int("parallel", 0, "execute the request lines concurrently from this many goroutines (stateless streams only); replies stay in request order")
 	)
 	flag.Parse()
 	if *list {
@@ -204,8 +230,33 @@ func main() {
 	kinds := map[string]int{}
 	distinct := map[string]bool{}
 	nontrivial := 0
+	replies := make([]string, len(lines))
+	if *par > 1 {
+		// concurrent execution against the shared package-level state of the library (tables, constants, buffers):
+		// every reply must still be what the sequential model predicts
+		var wg sync.WaitGroup
+		next := int64(-1)
+		for g := 0; g < *par; g++ {
+			wg.Add(1)
+			go func() {
+				defer wg.Done()
+				for {
+					i := int(atomic.AddInt64(&next, 1))
+					if i >= len(lines) {
+						return
+					}
+					replies[i] = execLineInner(lines[i])
+				}
+			}()
+		}
+		wg.Wait()
+	} else {
+		for i, l := range lines {
+			replies[i] = execLine(l)
+		}
+	}
 	for i, l := range lines {
-		r := execLine(l)
+		r := replies[i]
 		fmt.Fprintln(w, r)
 		hist[classes[i]]++
 		k := strings.SplitN(r, " ", 2)[0]
